@@ -1476,6 +1476,126 @@ fn build_proofs(z: &ZoneSpec) -> Vec<Built> {
     out
 }
 
+fn add1(h: &[u8]) -> Vec<u8> {
+    let mut v = h.to_vec();
+    for b in v.iter_mut().rev() {
+        if *b == 255 {
+            *b = 0;
+        } else {
+            *b += 1;
+            break;
+        }
+    }
+    v
+}
+
+fn sub1(h: &[u8]) -> Vec<u8> {
+    let mut v = h.to_vec();
+    for b in v.iter_mut().rev() {
+        if *b == 0 {
+            *b = 255;
+        } else {
+            *b -= 1;
+            break;
+        }
+    }
+    v
+}
+
+/// Boundary family: targets whose hash EQUALS the owner hash / the Next field of a record, and synthetic links
+/// whose owner / next are the target hash ± 1 in the last octet.  Expectation by construction: a link covers a
+/// hash only if it lies STRICTLY inside (equal to Next ⇒ that name exists; equal to the owner ⇒ matched).
+fn boundary(rec: &mut Recorder, z: &ZoneSpec) {
+    let ch = chain_h(z);
+    let h = |n: &Name| nsec3_hash(&z.salt, n, z.iterations);
+    let apex_l = lbls(&z.apex);
+    // names of the chain by hash
+    let mut by_hash: BTreeMap<Vec<u8>, Name> = BTreeMap::new();
+    for n in z.names.keys() {
+        for k in apex_l.len()..=n.len() {
+            let nm = name_of(&suffix(n, k));
+            by_hash.insert(h(&nm), nm);
+        }
+    }
+    let find_match = |n: &Name| ch.iter().position(|(oh, _)| *oh == h(n));
+    let find_cover = |n: &Name| ch.iter().position(|(oh, r)| inside(oh, &r.next, &h(n)));
+    let mk = |q: &Name, qtype: u16, rcode: u16, wl: Option<u8>, recs: Vec<RecIn>| Case { q: q.clone(), qtype, soa: Some(z.apex.clone()), rcode, wl, soft: 100, hard: 500, recs };
+    let clear = |mut r: RecIn, oo: bool| {
+        r.opt_out = oo;
+        r
+    };
+    // ---- (a)/(b): real names whose hash equals an owner hash or a Next field (every record, incl. the last one)
+    for (i, (_, p)) in ch.iter().enumerate() {
+        let Some(t) = by_hash.get(&p.next).cloned() else { continue };
+        if t == z.apex || t.num_labels() == 0 {
+            continue; // the apex is never a next closer name
+        }
+        let parent = t.base_name();
+        let last = i + 1 == ch.len();
+        let tag = if last { "boundary.next-eq-last-record" } else { "boundary.next-eq" };
+        let why = format!("the hash of {t} EQUALS the Next Hashed Owner Name of the {} record given as its cover: that name exists, it is not covered", if last { "last (wrap-around)" } else { "preceding" });
+        // name error for T (T's own record withheld)
+        if let (Some(ce), Some(wc)) = (find_match(&parent), find_cover(&parent.prepend_label("*").unwrap())) {
+            let mut recs = vec![clear(ch[ce].1.clone(), false), clear(p.clone(), false)];
+            if wc != ce && wc != i {
+                recs.push(clear(ch[wc].1.clone(), false));
+            }
+            run_expect(&mk(&t, T_A, 3, None, recs), rec, tag, Some(false), None, &why);
+        }
+        // Opt-Out DS for T with the preceding record as Opt-Out "cover"
+        run_expect(&mk(&t, T_DS, 0, None, vec![clear(p.clone(), true)]), rec, tag, Some(false), None, &why);
+        // wildcard answer with T as next closer name
+        run_expect(&mk(&t, T_A, 0, Some(parent.num_labels()), vec![clear(p.clone(), false)]), rec, tag, Some(false), None, &why);
+        // (a) the record OWNED by T offered as cover of T: matched, not covered
+        if let Some(own) = find_match(&t) {
+            let o = clear(ch[own].1.clone(), true);
+            run_expect(&mk(&t, T_A, 0, Some(parent.num_labels()), vec![o.clone()]), rec, "boundary.owner-eq", Some(false), None, &format!("the hash of {t} EQUALS the owner hash of the record offered as its cover: a matching record covers nothing"));
+            if let Some(ce) = find_match(&parent) {
+                run_expect(&mk(&t, T_A, 3, None, vec![clear(ch[ce].1.clone(), false), o.clone()]), rec, "boundary.owner-eq", Some(false), None, &format!("name error for {t} although the record matching it is present"));
+            }
+        }
+    }
+    // ---- (c): synthetic links around the hash of a name that does not exist, owner / next = hash, hash ± 1, ± 2
+    let x = name_of(&rel_name(&z.apex, &[b"x", b"b"])); // next closer of x.b.<apex> below the existing b.<apex>
+    let hx = h(&x);
+    let (m1, m2, m3, p1, p2, p3) = (sub1(&hx), sub1(&sub1(&hx)), sub1(&sub1(&sub1(&hx))), add1(&hx), add1(&add1(&hx)), add1(&add1(&add1(&hx))));
+    let links: Vec<(Vec<u8>, Vec<u8>)> = vec![
+        (m1.clone(), p1.clone()),
+        (m2.clone(), p2.clone()),
+        (hx.clone(), p1.clone()),
+        (m1.clone(), hx.clone()),
+        (p1.clone(), p2.clone()),
+        (m2.clone(), m1.clone()),
+        (m1.clone(), m3.clone()), // wrap-around link that really covers (hash above the owner)
+        (p3.clone(), p1.clone()), // wrap-around link that really covers (hash below next)
+        (p1.clone(), m1.clone()), // wrap-around link that does not cover
+        (p3.clone(), hx.clone()), // wrap-around link whose next equals the hash
+        (hx.clone(), m3.clone()), // wrap-around link owned by the hash
+    ];
+    let b_name = name_of(&rel_name(&z.apex, &[b"b"]));
+    let wlb = b_name.num_labels();
+    for (o, n) in links {
+        let covered = o != hx && inside(&o, &n, &hx);
+        let s = RecIn { owner: z.apex.prepend_label(&b32(&o)[..]).unwrap(), next: n.clone(), opt_out: false, iterations: z.iterations, salt: z.salt.clone(), types: vec![T_A, T_RRSIG] };
+        let why = format!("synthetic link {} -> {} around H({x}) = {}: the hash lies {} it", hex(&o), hex(&n), hex(&hx), if covered { "strictly inside" } else { "NOT strictly inside" });
+        // wildcard answer: the next closer cover alone decides
+        run_expect(&mk(&x, T_A, 0, Some(wlb), vec![s.clone()]), rec, "boundary.plusminus", Some(covered), None, &why);
+        // Opt-Out DS for x.b.<apex>
+        run_expect(&mk(&x, T_DS, 0, None, vec![clear(s.clone(), true)]), rec, "boundary.plusminus", Some(covered), None, &why);
+        // name error: closest encloser b.<apex> (genuine), the synthetic link for the next closer, the true cover of *.b? (exists: use
+        // the query below a.<apex> instead, where no wildcard exists)
+        let xa = name_of(&rel_name(&z.apex, &[b"x", b"a"]));
+        let hxa = h(&xa);
+        let (o2, n2) = (if o == hx { hxa.clone() } else if o < hx { sub1(&hxa) } else { add1(&hxa) }, if n == hx { hxa.clone() } else if n < hx { sub1(&hxa) } else { add1(&hxa) });
+        let cov2 = o2 != hxa && inside(&o2, &n2, &hxa);
+        if let (Some(ce), Some(wc)) = (find_match(&name_of(&rel_name(&z.apex, &[b"a"]))), find_cover(&name_of(&rel_name(&z.apex, &[b"*", b"a"])))) {
+            let s2 = RecIn { owner: z.apex.prepend_label(&b32(&o2)[..]).unwrap(), next: n2.clone(), opt_out: false, iterations: z.iterations, salt: z.salt.clone(), types: vec![T_A, T_RRSIG] };
+            let recs = vec![clear(ch[ce].1.clone(), false), s2, clear(ch[wc].1.clone(), false)];
+            run_expect(&mk(&xa, T_A, 3, None, recs), rec, "boundary.plusminus", Some(cov2), None, &format!("name error for {xa}: synthetic link {} -> {} around its hash {}: {} it", hex(&o2), hex(&n2), hex(&hxa), if cov2 { "strictly inside" } else { "NOT strictly inside" }));
+        }
+    }
+}
+
 fn permutations(n: usize) -> Vec<Vec<usize>> {
     fn go(cur: &mut Vec<usize>, used: &mut Vec<bool>, n: usize, out: &mut Vec<Vec<usize>>) {
         if cur.len() == n {
@@ -1590,6 +1710,11 @@ fn limits_block(rec: &mut Recorder) {
 fn directed(rec: &mut Recorder) {
     let zones = [directed_zone("z.", vec![], 0), directed_zone("a.b.", vec![0xab, 0xcd], 2), directed_zone("z.", vec![7], 1), directed_zone("a.b.", vec![], 0)];
     for z in &zones {
+        boundary(rec, z);
+        // the same with the secure delegation e.<apex> (NS + DS): the record preceding it must not prove "no DS"
+        let mut zd = z.clone();
+        zd.names.insert(rel_name(&zd.apex, &[b"e"]), [T_NS, T_DS].into_iter().collect());
+        boundary(rec, &zd);
         let proofs = build_proofs(z);
         rec.stat_n("directed.proofs-built", proofs.len() as u64);
         for b in &proofs {
